@@ -122,9 +122,9 @@ def run(ctx, proofs):
         "HashSet iteration order in `for i in pred_set`: the model iterates in increasing order; the result of the loop is "
         "characterised by membership only (complete_spec / back_fold in Proofs.LiftInv), the implementation is observed "
         "with its real random hash order",
-        "definition_complexity.rs computes (2 + edges) - nodes on usize: every block j > 0 has a predecessor "
-        "(C12_descending_path), hence edges >= nodes - 1 and no underflow; the counting step is argued in design.d/C12.md, "
-        "not mechanised",
+        "definition_complexity.rs computes (2 + edges) - nodes on usize: C12_complexity_no_underflow proves nodes <= 1 + edges "
+        "for every lifted graph (from C12_descending_path); that the pass adds up exactly successors().len() per block is read "
+        "off the source, the pass itself is not mirrored",
     ]
 
 
